@@ -967,3 +967,32 @@ func vQSpec(thrMilli int) int {
 	}
 	return q
 }
+
+// vCostCap is the cost model of DESIGN §0: the largest input (bytes) driven at
+// a threshold. Cost explodes as the threshold falls (every document passes the
+// prefilter, q shrinks to 1, range fusion is quadratic in q-gram hits; measured
+// with the embedded corpus: 100 bytes take 41 s at threshold 0, 0.15 s at 0.01,
+// 3 ms at 0.3), so that slowness is never mistaken for a hang. -1 = no cap.
+func vCostCap(thr float64, embedded bool) int {
+	if embedded {
+		switch {
+		case thr < 0.005:
+			return 16
+		case thr < 0.05:
+			return 300
+		case thr < 0.2:
+			return 1000
+		}
+	}
+	if thr < 0.65 {
+		return 2500
+	}
+	return -1
+}
+
+func vCap(in []byte, n int) []byte {
+	if n >= 0 && len(in) > n {
+		return in[:n]
+	}
+	return in
+}
